@@ -116,9 +116,25 @@ func lags(j *ssa.Phi) bool {
 		}
 		return false
 	}
+	// a way round the loop that leaves j as it is (i advances, j does not):
+	// a back edge carries j itself, directly or merged through phis of the
+	// body (`continue` before the j++)
+	var same func(v ssa.Value, depth int) bool
+	same = func(v ssa.Value, depth int) bool {
+		if v == ssa.Value(j) {
+			return true
+		}
+		if p, ok := v.(*ssa.Phi); ok && depth < 8 && p != j {
+			for _, e := range p.Edges {
+				if same(e, depth+1) {
+					return true
+				}
+			}
+		}
+		return false
+	}
 	for i, e := range j.Edges {
-		// a way round the loop that leaves j as it is (i advances, j does not)
-		if e == ssa.Value(j) && j.Block().Dominates(j.Block().Preds[i]) {
+		if j.Block().Dominates(j.Block().Preds[i]) && same(e, 0) {
 			return true
 		}
 		if rec(e) {
